@@ -88,7 +88,32 @@ func prepare(m *ref.Node, indexed bool) (*tree.Tree, *ref.UView, error) {
 		}
 	}
 	u, err := ref.Unrooted(m)
+	lastTree, lastIndexed = t, indexed
 	return t, u, err
+}
+
+// lastTree is the tree of the case being checked (cases are evaluated one at a time).
+var (
+	lastTree    *tree.Tree
+	lastIndexed bool
+)
+
+// indexesAfter wraps a check: when the tree was indexed before the operation, the operations of
+// this property (which end by recomputing the branch indexes, or do not touch the splits) must
+// leave the tip index and every recorded split describing the resulting tree.
+func indexesAfter[C any](check func(C) error) func(C) error {
+	return func(c C) error {
+		lastTree = nil
+		if err := check(c); err != nil {
+			return err
+		}
+		if lastTree != nil && lastIndexed && len(lastTree.Tips()) >= 3 && lastTree.Root().Nneigh() >= 2 {
+			if err := gt.IndexesExact(lastTree); err != nil {
+				return fmt.Errorf("the tree was indexed before the operation; after it the indexes do not describe the tree any more: %v (%s)", err, lastTree.Newick())
+			}
+		}
+		return nil
+	}
 }
 
 func sameTree(before *ref.Node, ub *ref.UView, t *tree.Tree, supports bool) (*ref.Node, error) {
@@ -215,7 +240,7 @@ func TestC05Reroot(t *testing.T) {
 				Op:  rapid.SampledFrom([]string{"reroot", "reroot", "reroot", "unroot", "rotate", "sort", "reroot_tip"}).Draw(t, "op"),
 				Sel: rapid.IntRange(0, 1000).Draw(t, "sel"), Seed: rapid.Int64Range(0, 1<<40).Draw(t, "seed")}
 		},
-		Check: checkRe,
+		Check: indexesAfter(checkRe),
 		Classify: func(c ReCase) (bool, []string) {
 			l := append(baseLabels(c.Tree), "op:"+c.Op)
 			return has(l, "multifurcating") || has(l, "rooted") || has(l, "zero-length"), l
@@ -431,7 +456,7 @@ func TestC05Outgroup(t *testing.T) {
 		Property: "C05", Name: "outgroup", Quick: 16000, Thorough: 800000,
 		Rule: "same trees x outgroup of classes {clade, complement of a clade, single tip, random subset, subset mixed with absent names, only absent names} x strict x remove (>=3 tips remain) x indexed or not; oracle = split-side predicate from the reference split set, root-clade / equal-halves predicates, Restrict for removal; non-trivial = multifurcating or rooted input, zero-length branch, or complement outgroup",
 		Gen:   genOut,
-		Check: checkOut,
+		Check: indexesAfter(checkOut),
 		Classify: func(c OutCase) (bool, []string) {
 			l := append(baseLabels(c.Tree), "class:"+c.Class, fmt.Sprintf("class:%s/strict=%v/remove=%v", c.Class, c.Strict, c.Remove))
 			return has(l, "multifurcating") || has(l, "rooted") || has(l, "zero-length") || c.Class == "complement", l
@@ -489,7 +514,7 @@ func TestC05Midpoint(t *testing.T) {
 		Gen: func(t *rapid.T, thorough bool) MidCase {
 			return MidCase{Tree: gen.Tree(t, treeOpts(t, thorough)), Indexed: rapid.Bool().Draw(t, "indexed")}
 		},
-		Check: checkMid,
+		Check: indexesAfter(checkMid),
 		Classify: func(c MidCase) (bool, []string) {
 			l := baseLabels(c.Tree)
 			if d, _ := ref.Diameter(c.Tree); d == 0 {
